@@ -541,3 +541,8 @@ _quick("C13", "C15_props", "(also under C15) every sequence of 3 kind-compatible
 _quick("C13", "C15_pipeline", "(also under C15) PIPELINE frames of well-formed sub-operations: every run-time check on these paths is an obligation", ["-witness", "5"], reach=["end"])
 _thorough("C13", "C15_mixedkinds4", "as C15_mixedkinds with every sequence of 4 operations (72 343 paths)", ["-witness", "50"])
 _thorough("C13", "C15_mixedpaths", "as C15_mixedkinds on the other paths a value operation can take: the first operation by a fresh LOCK, then two more, each by an update of the held lock, a re-entrant re-lock, a value-only request (Expried 0) of another LockId or an UNLOCK of one re-entrant level (54 107 paths): no crash, each request answered exactly once", ["-witness", "50"])
+
+# --- round 13 ---
+_quick("C10", "C10_newdb", "a node in each non-leader state; a LOCK / UNLOCK (symbolic flag byte without the from-stream and concurrent-check bits, symbolic Count / Rcount / Timeout / Expried) names a database id never used on the node, created on the spot by SLock.GetOrNewDB: refused with STATE_ERROR, nothing granted or queued", ["-witness", "5"], reach=["end"])
+_quick("C11", "C11_writefail", "an ack-required lock pending with one follower (mode all); the leader's own write of its record fails (the report AofFile.Flush makes for each pending request of a failed write, Aof.lockAcked(record, false), delivered for the record waiting in the file buffer) before or after the follower's positive acknowledgement: exactly one reply, not SUCCED, the hold is gone", ["-witness", "2"], reach=["end", "follower-first"])
+_quick("C18", "C18_willfail", "a binary connection with 3 wills, one of which (position 0 / 1 / 2, or none) cannot run at disconnect (a will-unlock naming a database never created, or a will-lock naming database 0xff): every other will has run after the connection closed", ["-witness", "8"], reach=["end"])
